@@ -288,7 +288,7 @@ def attribute(res):
         for sp in e['spans']:
             if sp['file'].endswith('verif_lemmas.rs'):
                 lemma = sp
-        fails.append({'props': sorted(p for p in props if re.match(r'C\d+$', p)), 'kind': kind, 'message': e['message'],
+        fails.append({'props': sorted(p for p in props if re.match(r'~?C\d+$', p)), 'kind': kind, 'message': e['message'],
                       'fn': ('%s::%s' % (site['rel'], site['fname'])) if site else None, 'clause': clause,
                       'instance': instance, 'lemma_span': lemma, 'rendered': e['rendered'], 'spans': e['spans']})
     return fails
@@ -336,6 +336,7 @@ def main():
 
     res = verus_shared(tier, seed)
     verus_undecided = None
+    via_note = None
     obligations = []   # dict(name, backend, status, detail)
     fn_set = []
     my_fails = []
@@ -358,6 +359,10 @@ def main():
             verus_undecided = 'verus could not ingest the spliced crate: ' + '; '.join([f['message'] for f in fails[:3]] + vz.get('raw_stderr', [])[:3])[:600]
         elif [f for f in fails if f['kind'] == 'undecided' and (pid in (f['props'] or []))]:
             verus_undecided = 'verus resource limit / unsupported on an obligation of this property'
+        via = [f for f in fails if f['kind'] == 'violation' and ('~' + pid) in (f['props'] or [])]
+        if via and verus_undecided is None:
+            via_note = ('the proof route of this property runs through %s, which no longer verifies against its RFC specification; '
+                        'that does not refute %s itself' % (sorted(set(f.get('fn') or '?' for f in via)), pid))
     if verus_undecided is None:
         # ---- obligations of this property in the Verus run
         for fn in index:
@@ -366,7 +371,8 @@ def main():
                 continue
             fn_set.append(fn)
             for t in mine:
-                name = '%s::%s clause@+%d' % (fn['rel'], fn['fname'], t['line'] - fn['start'])
+                sc = re.sub(r'\\\\[bB()$]|\\\\', '', fn['scopes'][-1])[:60] + '::' if fn['scopes'] else ''
+                name = '%s::%s%s clause@+%d' % (fn['rel'], sc, fn['fname'], t['line'] - fn['start'])
                 if fn['external']:
                     obligations.append({'name': name, 'backend': 'assumed-in-verus', 'discharged_by': fn['discharged_by'], 'status': 'assumed'})
                 else:
@@ -444,6 +450,33 @@ def main():
         vac.append('no obligations generated')
 
     failed = [o for o in obligations if o['status'] == 'FAILED']
+    if pid == 'C01' and failed:
+        # C01 is an AGREEMENT property: a deviation from the RFC specification that appears on both the sender-side
+        # and the receiver-side function of a pair is symmetric and does not refute the round trip -> undecided
+        sides = set(P.c01_side(o['name']) for o in failed if o['backend'] == 'verus')
+        if 'S' in sides and 'R' in sides:
+            via_note = 'both the sender-side and the receiver-side function deviate from the RFC specification (possibly symmetrically): C01 is neither proved nor refuted'
+            for o in failed:
+                if o['backend'] == 'verus':
+                    o['status'] = 'UNDECIDED'
+            failed = [o for o in obligations if o['status'] == 'FAILED']
+    if via_note and not failed:
+        say('UNDECIDED property=%s %s' % (pid, via_note))
+        return 2
+    # counterexample search for failed Verus obligations that have a Kani twin on the same real function
+    twin_names = sorted(set(kani_run.TWINS[f['fn'].split('::')[-1]] for f in my_fails
+                            if f.get('fn') and f['fn'].split('::')[-1] in kani_run.TWINS))
+    have = set(h['name'] for h in kres.get('harnesses', []))
+    twin_names = [t for t in twin_names if t not in have]
+    if failed and twin_names:
+        k2 = kani_run.run_for_property('-', tier, seed, extra_names=twin_names)
+        for h in k2.get('harnesses', []):
+            if not h['ok'] and not h.get('undecided'):
+                txt = k2.get('counterexamples', {}).get('kani %s' % h['name'])
+                for o in failed:
+                    fnn = (o.get('fn') or o['name'].split('::')[1].split(' ')[0] if '::' in o['name'] else '')
+                    if o['backend'] == 'verus' and kani_run.TWINS.get(fnn) == h['name'] and txt:
+                        kres.setdefault('counterexamples', {})[o['name']] = 'Kani twin harness on the same real function:\n' + txt
     # a definite violation from any back end is reported even when another back end is undecided
     if not failed:
         if verus_undecided:
@@ -504,15 +537,16 @@ def main():
         for i, o in enumerate(reported):
             rp = os.path.join(V, 'replays', '%s_%d.txt' % (pid, i))
             cex = kres.get('counterexamples', {}).get(o['name'])
+            native = bool(cex) and ('FAILS natively' in cex or o['backend'] == 'rustc trait solver')
             with open(rp, 'w') as fh:
                 fh.write('property: %s\nfailed obligation: %s\nback end: %s\nverifier says: %s\n\n' % (pid, o['name'], o['backend'], o.get('detail')))
                 for f in my_fails:
                     fh.write(f.get('rendered', '') + '\n')
                 if cex:
-                    fh.write('\ncounterexample (replayed natively against the real code):\n' + cex + '\n')
-                else:
+                    fh.write('\ncounterexample / verifier output:\n' + cex + '\n')
+                if not (cex and native):
                     fh.write('\nno-failing-input-found: the verifier gives no concrete input for this obligation\n')
-            say('VIOLATION property=%s replay=%s obligation="%s" %s' % (pid, rp, o['name'], '' if cex else 'no-failing-input-found'))
+            say('VIOLATION property=%s replay=%s obligation="%s" %s' % (pid, rp, o['name'], '' if (cex and native) else 'no-failing-input-found'))
         return 1
     say('OK property=%s tier=%s obligations=%d discharged=%d (verus %d, kani %d; assumed-in-verus %d, bounded %d) wall=%.1fs'
         % (pid, tier, len(counted), len(counted), n_verus, len(kres.get('harnesses', [])), len(assumed), len(bounded), wall))
